@@ -159,6 +159,11 @@ def strace_fault(job):
 def check(prop, tier):
     res = Result(prop, tier, level='fault_enumeration')
     try:
+        # the design: in the driver model every output operation may fail (FailOp counter); a fault is never success and nothing is recorded
+        import p_tool
+        st = tlc('MC_Push', constants={'Paths': p_tool.PATHS_C, 'W': 2, 'Universe': '<- U_fault', 'FailUpTo': 14 if tier == 'quick' else 20},
+                 cfg_body='INIT MCInit\nNEXT MCNext\nINVARIANT FaultNeverSuccess\nINVARIANT SameAsRef\n', tag='push-fault', workers=12)
+        res.add_tlc(st, 'MC_Push/U_fault')
         total = 0
         samples = []
         with Pool(12) as pool:
